@@ -38,7 +38,7 @@ MANIFEST = {
     "note": ("Trusted: rustc MIR construction (it is the source of the site list); the interval evaluator; allowlist reasons "
              "(each names the invariant and the rule that decides it). Not decided: third-party crates (cansi, roff, html-escape, "
              "unicode-width, utf8parse), allocation failure, cfg(windows) code."),
-    "technique": "static analysis: MIR panic-site inventory cross-matched with normalised HIR, interval analysis with path refinements, exclusions and inductive field invariants, unreachable-site rule, audited allowlist (matched up to renaming), unsafe-block inventory, who-may-write/who-may-call",
+    "technique": "static analysis: MIR panic-site inventory cross-matched with normalised HIR, interval analysis with path refinements, exclusions, inductive field invariants and iterator yield ranges, index discharge by enumeration over fieldless-enum parameters, unreachable-site rule, audited allowlist (matched up to renaming), unsafe-block inventory, who-may-write/who-may-call",
 }
 
 CRATES = ["anstyle_parse", "anstream", "anstyle", "anstyle_git", "anstyle_ls", "anstyle_lossy", "anstyle_svg", "anstyle_roff"]
